@@ -99,13 +99,6 @@ Definition resolve (tr : tree) (s : string) : res tname :=
        | [n] => Ok n
        | _ => Err ETypeNotFound            (* none, or "Multiple types with short name" *)
        end.
-(* select(type_): a Type object of this type system, or a string *)
-Inductive tsel := ByType (t : tname) | ByName (s : string).
-Definition resolve_sel (tr : tree) (q : tsel) : res tname :=
-  match q with
-  | ByType t => if has_type tr t then Ok t else Err ETypeNotFound     (* objects come from the type system *)
-  | ByName s => resolve tr s
-  end.
 
 (* _INHERITANCE_FINAL_TYPES *)
 Definition final_types : list tname :=
@@ -116,6 +109,27 @@ Definition final_types : list tname :=
 Definition create_type (tr : tree) (n sup : tname) : res tree :=
   if has_type tr n then Err EValue
   else do p <- resolve tr sup ;; if memb p final_types then Err EValue else Ok ((n, Some p) :: tr).
+
+(* another TypeSystem object, given by the create_type calls made on it so far (name, supertype argument), the
+   predefined ones included; a call that raises leaves it as it was *)
+Definition root_tree : tree := [("uima.cas.TOP", None)].
+Definition foreign_step (tr : tree) (c : tname * tname) : tree :=
+  match create_type tr (fst c) (snd c) with Ok tr' => tr' | _ => tr end.
+Definition foreign_tree (cts : list (tname * tname)) : tree := fold_left foreign_step cts root_tree.
+
+(* select(type_): a Type object of this type system, a string, or a Type object of another type system.
+   Cas.select uses a Type object as it is: no lookup in the type system of the CAS *)
+Inductive tsel := ByType (t : tname) | ByName (s : string) | ByForeign (cts : list (tname * tname)) (t : tname).
+Definition resolve_sel (tr : tree) (q : tsel) : res tname :=
+  match q with
+  | ByType t => if has_type tr t then Ok t else Err ETypeNotFound     (* objects come from the type system *)
+  | ByName s => resolve tr s
+  | ByForeign cts t => if has_type (foreign_tree cts) t then Ok t else Err EIndex   (* an object of that type system:
+                                                                     anything else is not a situation Python can be in *)
+  end.
+(* the tree whose _children the descendants walk follows: that of the type system the Type object belongs to *)
+Definition sel_tree (tr : tree) (q : tsel) : tree :=
+  match q with ByForeign cts _ => foreign_tree cts | _ => tr end.
 
 (* ------------------------------------------------------------------ the index of one view (mechanism) *)
 
@@ -261,7 +275,7 @@ Definition step (st : state P) (o : op) : state P * obs :=
           match resolve_sel (s_tree st) q with
           | Err e => (st, OErr e)
           | OutOfFuel => (st, OFuel)
-          | Ok T => match p_select pl (s_tree st) T order p with
+          | Ok T => match p_select pl (sel_tree (s_tree st) q) T order p with
                     | None => (st, OFuel)
                     | Some (p', l) => (put_view st v p', OList l)
                     end
